@@ -554,3 +554,38 @@ def flags_are_parsed_by_builtins(ctx):
         ctx.ob(ok, u, '%s is %s: %s' % (name, want, norm(c)[:80]),
                '' if ok else 'the value handed to glom_cli is not %s' % want, node=c)
     ctx.floor(8)
+
+
+@rule('C19.11')
+def spec_text_becomes_the_spec(ctx):
+    """the spec handed to glom() is what the spec text denotes in its format: for ``python`` a text
+    that does not *start* with a literal's opening character is a path string (the first
+    character decides, position 0), and the value of a ``python-full`` expression is the value
+    its helper returns -- the compiled expression's result, not None"""
+    from ..util import expand_locals
+    p = ctx.program
+    u = ctx.unit('cli.mw_get_target')
+    R = mw_roles(ctx)
+    st = R['spec_text']
+    tests = [n for n in u.own_nodes() if isinstance(n, ast.Compare) and isinstance(n.left, ast.Subscript) and is_name(n.left.value, st)
+             and isinstance(n.ops[0], (ast.In, ast.NotIn))]
+    ctx.require(len(tests) == 1, 'mw_get_target: the literal-or-path test on the spec text not found')
+    t = tests[0]
+    idx0 = isinstance(t.left.slice, ast.Constant) and t.left.slice.value == 0
+    opening = {e.value for e in t.comparators[0].elts if isinstance(e, ast.Constant)} if isinstance(t.comparators[0], (ast.Tuple, ast.List, ast.Set)) else set()
+    ctx.ob(idx0, u, 'the first character of the spec text decides between literal and path: %s' % norm(t.left),
+           '' if idx0 else 'a later character is looked at: "[T]" would be taken for a path string, "a[" for a literal', node=t)
+    ok = opening == {'"', "'", '[', '{', '('}
+    ctx.ob(ok, u, 'literal specs open with a quote, bracket, brace or parenthesis: %s' % sorted(opening))
+    fu = ctx.unit('cli._eval_python_full_spec')
+    fcfg = ctx.cfg(fu)
+    rets = [r for r in fu.own_nodes() if isinstance(r, ast.Return)]
+    vals = [expand_locals(fcfg, fcfg.node_of(r), r.value) if r.value is not None else None for r in rets]
+    ok = bool(rets) and all(isinstance(v, ast.Call) and callee_qual(p, fu, v) == 'cli._compile_code' for v in vals)
+    ctx.ob(ok, fu, 'a python-full spec is the value of the compiled expression: %s' % [norm(r) for r in rets],
+           '' if ok else 'the evaluated spec is dropped: glom() would run with None (or something else) as the spec')
+    calls = [c for c in calls_in(u) if callee_qual(p, u, c) == 'cli._eval_python_full_spec']
+    ok = len(calls) == 1 and isinstance(stmt_of(calls[0]), ast.Assign) and is_name(stmt_of(calls[0]).targets[0], R['spec']) \
+        and len(calls[0].args) == 1 and is_name(calls[0].args[0], st)
+    ctx.ob(ok, u, 'and becomes the spec: %s' % [norm(stmt_of(c)) for c in calls])
+    ctx.floor(4)
